@@ -54,6 +54,18 @@ def gen_toggles(rng) -> dict:
         "borders": rng.random() < 0.4,
         "var_cols": rng.random() < 0.7,
     }
+    # themed runs: related features have to co-occur across the documents of ONE run for
+    # cross-document state (keyed on column names, column indices, image bytes ...) to show
+    t["theme"] = rng.choice([None, None, "grouping", "grouping", "figure", "multi"])
+    if t["theme"] == "grouping":
+        t["page_by"] = t["subline_by"] = t["group_by"] = True
+        t["figure"] = False
+        t["multi"] = rng.random() < 0.3
+        t["failing"] = rng.random() < 0.3
+    elif t["theme"] == "figure":
+        t["figure"] = True
+    elif t["theme"] == "multi":
+        t["multi"] = True
     t["palette"] = rng.sample(COLORS, t["n_colours"]) if t["colours"] else []
     return t
 
@@ -231,6 +243,8 @@ def gen_palette_of_specs(rng, t) -> dict:
         kinds = ["plain", "plain"]
         if t["group_by"] or t["page_by"] or t["subline_by"]:
             kinds.append("grouped")
+        if t.get("theme") == "grouping":
+            kinds = ["grouped", "grouped", "grouped", "plain"]
         if t["failing"]:
             kinds.append("broken")
             if n >= 3:
@@ -241,6 +255,19 @@ def gen_palette_of_specs(rng, t) -> dict:
 
 def _pick_body(rng, t, pal, n, frame_kind, allow_grouping=True):
     spec = dict(rng.choice(pal["body_any"] + pal["body_n"][n] + pal["body_n"][n]))
+    if allow_grouping and t.get("theme") == "grouping" and frame_kind == "grouped":
+        # one grouping role per key column, roles permuted per document
+        roles = rng.choice([("page_by",), ("subline_by",), ("group_by",), ("page_by", "subline_by"),
+                            ("subline_by", "page_by"), ("page_by", "group_by"), ("group_by", "page_by"),
+                            ("subline_by", "group_by")])
+        cols = ["c0", "c1"] if n >= 3 else ["c0"]
+        for role, colname in zip(roles, cols):
+            spec[role] = [colname]
+        if "page_by" in spec and rng.random() < 0.4:
+            spec["new_page"] = True
+            if rng.random() < 0.5:
+                spec["pageby_row"] = "first_row"
+        return spec
     if allow_grouping and frame_kind in ("grouped", "broken", "broken2"):
         used = set()
         if t["group_by"] or frame_kind in ("broken", "broken2"):
@@ -264,9 +291,9 @@ def _pick_body(rng, t, pal, n, frame_kind, allow_grouping=True):
 def gen_recipe(rng, t, pal) -> dict:
     r = rng.random()
     kind = "single"
-    if t["figure"] and r < 0.25:
+    if t["figure"] and r < (0.6 if t.get("theme") == "figure" else 0.25):
         kind = "figure"
-    elif t["multi"] and r < 0.6:
+    elif t["multi"] and r < (0.8 if t.get("theme") == "multi" else 0.6):
         kind = "multi"
     rec: dict = {"kind": kind}
     rec["page"] = dict(rng.choice(pal["page"]))
